@@ -1,4 +1,152 @@
-(* C32 — placeholder while the model is being tied; replaced by the theorem file. *)
-From WK Require Import Base.Base Model.AckTracker.
-Example c32_stub : t_count (NewAckTracker 0 0) = 0%Z.
-Proof. reflexivity. Qed.
+(* C32 — Receive-acknowledgement tracking is exact.
+   Statements only; each is closed by [exact] of a lemma of Proof/AckTracker*.v.
+   Model: Model/AckTracker.v (internal/runtime/delivery/ack_tracker.go).
+
+   [reachable t]: t is the tracker state after some sequential history of API
+   calls (BindResult, Bind, BindBatch, FinishBind, FinishBindBatch, CancelBind,
+   Ack, SessionClosed, Expire, Reset, clock moves) on a fresh tracker with any
+   shard count and any per-session limit, the injected clock staying in
+   [0, MaxInt64] and Expire's ttl being an int64. *)
+From WK Require Import Base.Base Gen.Consts_C32 Model.AckTracker.
+From WK Require Import Proof.AckTracker_sim3 Proof.AckTracker_sim4 Proof.AckTracker.
+Open Scope N_scope.
+
+(* the pending counter equals the number of rows of byMessage, whose keys are
+   pairwise distinct (uid, session, message) identities *)
+Theorem c32_count_exact : forall t,
+  reachable t ->
+  t_count t = Z.of_nat (length (t_byMessage t)) /\ NoDup (map fst (t_byMessage t)).
+Proof. exact count_exact. Qed.
+Print Assumptions c32_count_exact.
+
+(* bySession is exactly the projection of byMessage (no stale, no missing message id) *)
+Theorem c32_index_consistent : forall t,
+  reachable t ->
+  forall u s m,
+    (exists ms, al_get skey_eqb (u, s) (t_bySession t) = Some ms /\ In m ms)
+    <-> al_get key_eqb (u, s, m) (t_byMessage t) <> None.
+Proof. exact index_consistent. Qed.
+Print Assumptions c32_index_consistent.
+
+(* an acknowledgement removes the matching identity and nothing else; it reports
+   the stored delivery and decrements the counter iff the identity was pending *)
+Theorem c32_ack_only_matching : forall t u s m,
+  reachable t ->
+  let '(t', r) := Ack t u s m in
+  (forall k, k <> (u, s, m) -> al_get key_eqb k (t_byMessage t') = al_get key_eqb k (t_byMessage t))
+  /\ al_get key_eqb (u, s, m) (t_byMessage t') = None
+  /\ match al_get key_eqb (u, s, m) (t_byMessage t) with
+     | Some e => r = RAck true (e_pending e) /\ t_count t' = (t_count t - 1)%Z
+     | None => r = RAck false zero_pending /\ t' = t
+     end.
+Proof. exact ack_only_matching. Qed.
+Print Assumptions c32_ack_only_matching.
+
+(* rolling back the reservation [tok] of a (failed) delivery never removes an
+   identity that has a committed (successful) delivery or another live
+   reservation; no other identity changes and the counter stays *)
+Theorem c32_cancel_keeps_committed : forall t p tok e,
+  reachable t -> al_get key_eqb (key_of p) (t_byMessage t) = Some e ->
+  e_committed e = true
+  \/ ((e_primary e <> 0 /\ e_primary e <> tok) \/ exists a, In a (e_extra e) /\ a_token a <> tok) ->
+  let '(t', r) := CancelBind t p tok in
+  al_get key_eqb (key_of p) (t_byMessage t') <> None
+  /\ (forall k, k <> key_of p -> al_get key_eqb k (t_byMessage t') = al_get key_eqb k (t_byMessage t))
+  /\ t_count t' = t_count t
+  /\ exists c, r = RCancel c false (t_count t).
+Proof. exact cancel_keeps_committed. Qed.
+Print Assumptions c32_cancel_keeps_committed.
+
+(* closing a session removes exactly that session's identities and returns
+   exactly their stored deliveries, each once *)
+Theorem c32_session_closed_exact : forall t u s,
+  reachable t ->
+  let '(t', r) := SessionClosed t u s in
+  exists ps, r = RList ps
+  /\ (forall k, al_get key_eqb k (t_byMessage t') =
+                if skey_eqb (key_skey k) (u, s) then None else al_get key_eqb k (t_byMessage t))
+  /\ (forall p, In p ps <->
+                exists k e, key_skey k = (u, s) /\ al_get key_eqb k (t_byMessage t) = Some e /\ p = e_pending e)
+  /\ t_count t' = (t_count t - Z.of_nat (length ps))%Z
+  /\ NoDup (map key_of ps).
+Proof. exact session_closed_exact. Qed.
+Print Assumptions c32_session_closed_exact.
+
+(* Expire(ttl) at clock [now] removes an identity iff ttl > 0 and every delivery
+   candidate of it (the committed snapshot / primary attempt and every extra
+   in-flight attempt) is at least ttl old: (now - DeliveredAt) seconds >= ttl ns.
+   Kept rows are unchanged, nothing appears, the result lists the removed rows. *)
+Theorem c32_expire_only_idle : forall t now ttl,
+  reachable t -> (0 <= now <= i64_max)%Z -> (ttl <= i64_max)%Z ->
+  let '(t', r) := Expire t now ttl in
+  (forall k e, al_get key_eqb k (t_byMessage t) = Some e ->
+     (al_get key_eqb k (t_byMessage t') = None <->
+      (0 < ttl)%Z /\ forall a, In a (entry_candidates e) -> (ttl <= (now - a) * time_second)%Z)
+     /\ (al_get key_eqb k (t_byMessage t') = None \/ al_get key_eqb k (t_byMessage t') = Some e))
+  /\ (forall k, al_get key_eqb k (t_byMessage t) = None -> al_get key_eqb k (t_byMessage t') = None)
+  /\ exists ps, r = RList ps /\ t_count t' = (t_count t - Z.of_nat (length ps))%Z
+     /\ (forall p, In p ps <-> exists k e, al_get key_eqb k (t_byMessage t) = Some e
+                                /\ al_get key_eqb k (t_byMessage t') = None /\ p = e_pending e).
+Proof. exact expire_only_idle. Qed.
+Print Assumptions c32_expire_only_idle.
+
+(* with MaxPendingPerSession > 0 no session ever holds more identities than the limit *)
+Theorem c32_per_session_bound : forall t,
+  reachable t -> (0 < t_limit t)%Z ->
+  forall sk ms, al_get skey_eqb sk (t_bySession t) = Some ms -> (Z.of_nat (length ms) <= t_limit t)%Z.
+Proof. exact per_session_bound. Qed.
+Print Assumptions c32_per_session_bound.
+
+(* the monitor evaluated on implementation traces (the specification tracker:
+   set of outstanding identities, committed flag and live reservations per
+   identity) accepts every history the model can produce: a monitor failure on
+   a trace on which model and implementation agree is impossible *)
+Theorem c32_model_satisfies_monitor : forall shards limit now ops,
+  (0 <= now <= i64_max)%Z -> Forall op_in_range ops ->
+  let '((t, _), tr) := run (NewAckTracker shards limit, now) ops in
+  C32_monitor (C32Case shards limit now tr (t_byMessage t) (t_bySession t)) = 0.
+Proof. exact model_satisfies_monitor. Qed.
+Print Assumptions c32_model_satisfies_monitor.
+
+(* ---- non-vacuity ------------------------------------------------------------------ *)
+Definition ex_p (at_ : Z) : pending := Pend 1 7 3 0 0 0 at_.
+(* three overlapping deliveries of one message, the middle extra attempt finishes
+   first (swap-remove + primary moved into the slot), the primary rolls back,
+   a fresher in-flight attempt protects the stale committed snapshot from
+   expiry; then it expires, a second identity is closed with its session *)
+Definition ex_ops : list op :=
+  [ OBind (ex_p 100); OBind (ex_p 101); OClock 103; OBind (ex_p 0); OFinish (ex_p 0) 2; OCancel (ex_p 0) 1;
+    OBind (Pend 1 7 4 0 0 0 0%Z); OClock 104; OExpire 3000000000; OCancel (ex_p 0) 3;
+    OExpire 3000000000; OClose 1 7 ].
+
+Example c32_example_history :
+  Forall op_in_range ex_ops
+  /\ map (fun s => snd s) (snd (run (NewAckTracker 0 2, 100%Z) ex_ops)) = [1; 1; 1; 1; 1; 1; 2; 2; 2; 2; 1; 0]%Z
+  /\ (let '((t, _), tr) := run (NewAckTracker 0 2, 100%Z) ex_ops in
+      C32_monitor (C32Case 0 2 100 tr (t_byMessage t) (t_bySession t))) = 0.
+Proof.
+  split; [|split; vm_compute; reflexivity].
+  unfold ex_ops. repeat (apply Forall_cons; [cbn; try exact I; unfold i64_max; lia|]). apply Forall_nil.
+Qed.
+
+(* the monitor is not vacuous: the trace of the defect repaired in /repo commit
+   db5f13b04 (ttl + time.Second - 1 wrapped for ttl near MaxInt64, so Expire
+   dropped a delivery made in the same second) is rejected *)
+Example c32_monitor_rejects_fresh_expiry :
+  C32_monitor (C32Case 0 0 1000
+    [ (OBind (ex_p 1000), RBind true true 1 1, 1%Z);
+      (OFinish (ex_p 1000) 1, RBool true, 1%Z);
+      (OExpire 9223372036854775807, RList [ex_p 1000], 0%Z) ] [] []) = 1.
+Proof. vm_compute. reflexivity. Qed.
+
+(* ... nor a rollback that drops a committed delivery, nor a counter that drifts *)
+Example c32_monitor_rejects_lost_commit :
+  C32_monitor (C32Case 0 0 1000
+    [ (OBind (ex_p 1000), RBind true true 1 1, 1%Z);
+      (OFinish (ex_p 1000) 1, RBool true, 1%Z);
+      (OBind (ex_p 1001), RBind true false 2 1, 1%Z);
+      (OCancel (ex_p 1001) 2, RCancel true true 0, 0%Z) ] [] []) = 1
+  /\ C32_monitor (C32Case 0 0 1000
+    [ (OBind (ex_p 1000), RBind true true 1 1, 1%Z);
+      (OAck 1 7 3, RAck true (ex_p 1000), 1%Z) ] [((1, 7, 3), Ent (ex_p 1000) false 1 [])] [((1, 7), [3])]) = 1.
+Proof. split; vm_compute; reflexivity. Qed.
